@@ -1,8 +1,8 @@
 SPECIFICATION Spec
 CONSTANTS
-  Indexes = {1}
-  Ids = {1, 2, 3}
-  Toks = {"a", "b"}
+  Indexes = {1, 2}
+  Ids = {1, 2}
+  Toks = {"a"}
   Metrics = {"f"}
   Dim = 2
   Caps = {1}
@@ -16,7 +16,7 @@ CONSTANTS
   AtLeastOne = TRUE
   WithTxn = FALSE
   WithCancel = FALSE
-  WithAppend = FALSE
+  WithAppend = TRUE
 INVARIANTS
   ValidWhenOpen
   OpenIffFresh
@@ -29,5 +29,8 @@ INVARIANTS
   NoPanic
   NoInternalError
 PROPERTIES
+  BuildKeepsItems
+  RejectedChangesNothing
+  MetricChange
   OthersUntouched
 CHECK_DEADLOCK FALSE
